@@ -352,11 +352,19 @@ def run_project_case(case: dict) -> dict:
                 fp.parent.mkdir(parents=True, exist_ok=True)
                 fp.write_text(content)
             env = dict(os.environ, GIT_CONFIG_GLOBAL="/dev/null", GIT_CONFIG_SYSTEM="/dev/null", HOME=str(d))
-            subprocess.run(["git", "init", "-q"], cwd=root, env=env, check=True, capture_output=True)
+            gitdir = root
+            if case.get("git_monorepo"):
+                # the project is a sub-directory of a larger work tree whose top-level .gitmodules registers a submodule BELOW
+                # the project: its files are not the project's (no --include-submodules here)
+                gitdir = d
+                (root / "vendor-sm").mkdir(exist_ok=True)
+                (root / "vendor-sm" / "thirdparty.c").write_text("int third_party;\n")
+                (d / ".gitmodules").write_text(f'[submodule "vendor-sm"]\n\tpath = {root.name}/vendor-sm\n\turl = https://example.com/v.git\n')
+            subprocess.run(["git", "init", "-q"], cwd=gitdir, env=env, check=True, capture_output=True)
             if case.get("git_exclude"):        # ignore rules of the repository that are not part of the work tree
-                with open(root / ".git" / "info" / "exclude", "a") as fh:
+                with open(gitdir / ".git" / "info" / "exclude", "a") as fh:
                     fh.write(case["git_exclude"])
-            subprocess.run(["git", "add", "-A"], cwd=root, env=env, check=True, capture_output=True)
+            subprocess.run(["git", "add", "-A"], cwd=root, env=env, check=False, capture_output=True)
         if case.get("under"):
             # the whole abstract project sits below a Meson subproject directory of a larger tree, and lint is told to include
             # subprojects: paths and sources are reported with that prefix, everything else is as for the project alone
